@@ -109,9 +109,13 @@ theorem missing_file_named (fs : Fs) (d : Nat) (path : Str) (incs : List Str) (s
   have hread : fs.read path = none := by
     unfold Fs.exists Fs.isFile at hex
     unfold Fs.read
-    cases hl : alookup (normPath fs path) fs.files with
+    cases hq : fs.real path with
     | none => rfl
-    | some v => simp [hl] at hex
+    | some q =>
+      simp only [hq] at hex ⊢
+      cases hl : alookup q fs.files with
+      | none => rfl
+      | some v => simp [hl] at hex
   have hdir : fs.isDir path = false := by
     unfold Fs.exists at hex
     simp only [Bool.or_eq_false_iff] at hex
